@@ -1,0 +1,39 @@
+//go:build verif
+
+package fsm
+
+import "github.com/cockroachdb/pebble"
+
+// Exports for the verification harness in /verif (build tag "verif"); no behaviour.
+
+const VerifMaxRangeSize = maxRangeSize
+
+func VerifWildcard() []byte       { return append([]byte(nil), wildcard...) }
+func VerifSysLocalIndex() []byte  { return append([]byte(nil), sysLocalIndex...) }
+func VerifSysLeaderIndex() []byte { return append([]byte(nil), sysLeaderIndex...) }
+func VerifMaxUserKey() []byte     { return append([]byte(nil), maxUserKey...) }
+
+// VerifIncrementRightmostByte works on a copy of the input.
+func VerifIncrementRightmostByte(in []byte) []byte {
+	return incrementRightmostByte(append([]byte(nil), in...))
+}
+
+// VerifIterBounds returns the Pebble bounds computed for a user range.
+func VerifIterBounds(low, high []byte) (lo, hi []byte, err error) {
+	var o *pebble.IterOptions
+	o, err = iterOptionsForBounds(low, high)
+	if err != nil {
+		return nil, nil, err
+	}
+	return o.LowerBound, o.UpperBound, nil
+}
+
+// VerifEncodeUserKey returns the stored form of a user key.
+func VerifEncodeUserKey(k []byte) ([]byte, error) {
+	buf := bufferPool.Get()
+	defer bufferPool.Put(buf)
+	if err := encodeUserKey(buf, k); err != nil {
+		return nil, err
+	}
+	return append([]byte(nil), buf.Bytes()...), nil
+}
